@@ -19,8 +19,8 @@ def C12_full : Prop :=
 a real name equal to `/dev/null`, the written form is accepted and describes the same patch. -/
 theorem C12_partial (bs : Bytes) (strip : Nat) (wh : Bool) (p : Patch) (h : parsePatch bs strip wh = .ok p)
     (hk : ∀ fp ∈ p.fps, noopHunkless fp = false) (hn : ∀ fp ∈ p.fps, nullNamed fp = false) :
-    ∃ p', parsePatch (writePatch p) 0 true = .ok p' ∧ SamePatch p p' := by
-  sorry
+    ∃ p', parsePatch (writePatch p) 0 true = .ok p' ∧ SamePatch p p' :=
+  roundtrip bs strip wh p h hk hn
 
 /-- writing depends only on what `SamePatch` compares, so writing the re-parsed patch reproduces the
 written form byte for byte -/
